@@ -7,6 +7,8 @@ import (
 	"os"
 	"os/exec"
 	"path/filepath"
+	"regexp"
+	"sort"
 	"strings"
 	"sync"
 	"time"
@@ -29,11 +31,8 @@ func (c *Ctx) Query(ob *Obligation, entryFacts []*Term) string {
 	}
 	fmt.Fprintf(&body, "(assert (not %s))\n", ob.Goal.S)
 	text := body.String()
-	// global declarations (all), axioms by need (transitively)
-	for _, d := range c.gdecls {
-		b.WriteString(d)
-		b.WriteByte('\n')
-	}
+	// axioms by need (transitively); global declarations by need, too, so that a query does
+	// not depend on which other procedures were processed in the same run
 	need := text
 	included := make([]bool, len(c.gax))
 	for changed := true; changed; {
@@ -52,12 +51,82 @@ func (c *Ctx) Query(ob *Obligation, entryFacts []*Term) string {
 			}
 		}
 	}
+	var axb strings.Builder
+	var axs []string
 	for i, a := range c.gax {
 		if included[i] {
-			b.WriteString(a.Text)
-			b.WriteByte('\n')
+			axs = append(axs, a.Text)
 		}
 	}
+	sort.Strings(axs)
+	for _, a := range axs {
+		axb.WriteString(a)
+		axb.WriteByte('\n')
+	}
+	// declarations: sorts always (in dependency order), functions and constants when their name
+	// occurs (sorted), so that the text does not depend on the order of first use
+	var sortDecls, funDecls []string
+	for _, d := range c.gdecls {
+		if strings.HasPrefix(d, "(declare-fun ") {
+			funDecls = append(funDecls, d)
+		} else {
+			sortDecls = append(sortDecls, d)
+		}
+	}
+	sort.Strings(funDecls)
+	sort.Strings(sortDecls)
+	declared := map[string]bool{"Int": true, "Bool": true, "Str": true, "Slice": true, "Iface": true}
+	known := map[string]bool{}
+	for _, d := range sortDecls {
+		n, _ := sortDeclInfo(d)
+		known[n] = true
+	}
+	for len(sortDecls) > 0 {
+		progress := false
+		var rest []string
+		for _, d := range sortDecls {
+			name, deps := sortDeclInfo(d)
+			ok := true
+			for _, dp := range deps {
+				if known[dp] && !declared[dp] && dp != name {
+					ok = false
+				}
+			}
+			if ok {
+				b.WriteString(d)
+				b.WriteByte('\n')
+				declared[name] = true
+				progress = true
+			} else {
+				rest = append(rest, d)
+			}
+		}
+		sortDecls = rest
+		if !progress {
+			for _, d := range rest {
+				b.WriteString(d)
+				b.WriteByte('\n')
+			}
+			break
+		}
+	}
+	for _, d := range funDecls {
+		if strings.HasPrefix(d, "(declare-fun ") {
+			name := d[len("(declare-fun "):]
+			if i := strings.IndexAny(name, " )"); i > 0 {
+				name = name[:i]
+			}
+			if !strings.Contains(need, name) {
+				// multi-part declarations (box/unbox) carry a second function
+				if j := strings.Index(d, "\n(declare-fun "); j < 0 || !strings.Contains(need, strings.Fields(d[j+len("\n(declare-fun "):])[0]) {
+					continue
+				}
+			}
+		}
+		b.WriteString(d)
+		b.WriteByte('\n')
+	}
+	b.WriteString(axb.String())
 	// distinct pointer globals
 	var used []string
 	for _, g := range c.ptrGlobals {
@@ -71,6 +140,30 @@ func (c *Ctx) Query(ob *Obligation, entryFacts []*Term) string {
 	b.WriteString(text)
 	b.WriteString("(check-sat)\n")
 	return b.String()
+}
+
+var sortNameRe = regexp.MustCompile(`S_[A-Za-z0-9_]+`)
+
+// sortDeclInfo returns the declared sort name and the S_ sorts a declaration mentions.
+func sortDeclInfo(d string) (string, []string) {
+	all := sortNameRe.FindAllString(d, -1)
+	name := ""
+	if strings.HasPrefix(d, "(declare-sort ") {
+		name = strings.Fields(d[len("(declare-sort "):])[0]
+	} else if i := strings.Index(d, "(("); i >= 0 {
+		name = strings.Fields(d[i+2:])[0]
+	}
+	seen := map[string]bool{}
+	var deps []string
+	for _, a := range all {
+		// selector/constructor names contain the sort name as a prefix: keep exact sort tokens only
+		if seen[a] {
+			continue
+		}
+		seen[a] = true
+		deps = append(deps, a)
+	}
+	return name, deps
 }
 
 type solverSpec struct {
